@@ -20,7 +20,7 @@ func init() {
 	register(&explore.Prop{
 		ID: "C14", Level: levelMC, Explorer: "E2 path mode (build histories, deterministic pool, owned map order) + E4 schedule explorer (concurrent builders)",
 		Instr: true,
-		Rule: "instrumented build: sync.Pool replaced by a deterministic LIFO pool, every `range` over a map iterates in an order the explorer chooses. Histories: a menu of 15 batches chosen to leave different residue in the pooled builder (more/fewer fields, terms, postings, locations; doc values on/off; larger then smaller; composite fields naming the same field under different schemas; a 41-field batch whose later documents carry only 2-3 of the fields; a batch in which every field including `_id` has doc values; a 300-word dictionary of pseudo-random words; a build that FAILS with an unknown chunk mode); every history of length <=3 (thorough <=4) followed by every target, under chunk modes {1025, 2}; HIST-LARGE: histories [big], [big, m] (thorough also [m, big]) with big = a 1100-document batch or a 5000-word dictionary (thorough also 2100 documents) followed by every target; map order: for every map-range site reached, reverse and rotated orders as single deviations; schedules: 2 threads x 2 builds and 3 threads x 1 build of different batches at preemption bound 2 (scheduling points at pool/once operations and written package-level state); " +
+		Rule: "instrumented build: sync.Pool replaced by a deterministic LIFO pool, every `range` over a map iterates in an order the explorer chooses. Histories: a menu of 15 batches chosen to leave different residue in the pooled builder (more/fewer fields, terms, postings, locations; doc values on/off; larger then smaller; composite fields naming the same field under different schemas; a 41-field batch whose later documents carry only 2-3 of the fields; a batch in which every field including `_id` has doc values; a 300-word dictionary of pseudo-random words; a build that FAILS with an unknown chunk mode); every history of length <=3 (thorough <=4) followed by every target, under chunk modes {1025, 2}; HIST-LARGE: histories [big], [big, m] (thorough also [m, big]) with big = a 1100-document batch or a 5000-word dictionary (thorough also 2100 documents) followed by every target; HIST-HUGE: histories [huge], [m, huge] with huge = one document of 90000 distinct terms, followed by every target and by dictionaries of 5000 and 2000 words; map order: for every map-range site reached, reverse and rotated orders as single deviations; schedules: 2 threads x 2 builds and 3 threads x 1 build of different batches at preemption bound 2 (scheduling points at pool/once operations and written package-level state); " +
 			"oracle: bytes(target | history, order, schedule) == bytes(target | cold start, sorted order, alone); non-trivial = the pool held a recycled builder when the target build started (VerifInterimPool + PoolLen) / schedule has a preemption",
 		Assumptions: []string{"the deterministic pool models sync.Pool as LIFO reuse; the real pool may also drop objects (equivalent to a cold start, which is the baseline)", "bounded histories/menus (DESIGN.md 5 C14)", "preemption bound 2, <=3 threads; statement-level atomicity"},
 		Budget:      qBudget, Run: runC14,
@@ -290,6 +290,61 @@ func runC14(c *explore.Ctx) {
 						if c.Expired() {
 							return
 						}
+					}
+				}
+			}
+		}
+		// HIST-HUGE: a builder first used for (or later fed) a batch of 90000 distinct terms - anything
+		// the builder sizes by its first batch and keeps (hash tables, registries, arenas) - followed
+		// by the menu targets and two larger dictionaries
+		if mode == 1025 {
+			huge := c14Terms(90000)
+			extra := [][]model.Doc{c14Terms(5000), c14Terms(2000)}
+			extraBase := make([][]byte, len(extra))
+			for i, b := range extra {
+				verifrt.ResetPools()
+				bb, err := buildBytes(b, mode)
+				if err != nil {
+					envFail(c, fmt.Sprintf("C14 cold build of dictionary %d failed: %v", i, err))
+					return
+				}
+				extraBase[i] = bb
+			}
+			scope := fmt.Sprintf("HIST-HUGE/%d", mode)
+			var li int64
+			for _, h := range [][]int{{-1}, {13, -1}} {
+				for target := -len(extra); target < len(menu); target++ {
+					my := li
+					li++
+					if !c.MineIdx(scope, my) {
+						continue
+					}
+					c.Eval()
+					c.Nontrivial()
+					verifrt.ResetPools()
+					for _, x := range h {
+						if x < 0 {
+							buildBytes(huge, mode)
+						} else {
+							buildBytes(menu[x], mode)
+						}
+					}
+					var tb []model.Doc
+					var want []byte
+					if target >= 0 {
+						tb, want = menu[target], base[target]
+					} else {
+						tb, want = extra[-target-1], extraBase[-target-1]
+					}
+					got, err := buildBytes(tb, mode)
+					cas := fmt.Sprintf("%s #%d history=%v (-1 = a batch of 90000 distinct terms) target=%d (negative: dictionaries of 5000 / 2000 words)", scope, my, h, target)
+					if err != nil {
+						c.Violate(scope, my, sigOf("C14", "history", "error: "+err.Error()), err.Error(), cas)
+					} else if !bytes.Equal(got, want) {
+						c.Violate(scope, my, "C14/history/bytes-differ", fmt.Sprintf("target built after history %v differs from its cold-start bytes (%d vs %d bytes, first difference at %d)", h, len(got), len(want), firstDiff(got, want)), cas)
+					}
+					if c.Expired() {
+						return
 					}
 				}
 			}
